@@ -405,7 +405,7 @@ theorem jw_dispatchOne_row (sp : Spec) (w : World) (c : Cmd) (h1 : isCompleted w
       simp only
       have hm := findByName_mem w _ r hr
       split
-      · refine ⟨{ r with state := .WAITING }, ?_, hm.2, waiting_incomplete⟩
+      · refine ⟨{ r with state := .WAITING, processed := false }, ?_, hm.2, waiting_incomplete⟩
         unfold setTask
         exact List.mem_map.mpr ⟨r, hm.1, by simp⟩
       · rename_i hs
